@@ -106,6 +106,7 @@ class SteadyLift:
         from irispie.equators import plain as pl
         self.sd, self.ev, self.eq, self.st, self.va, self.pl = sd, ev, eq, st, va, pl
         self.blocks = []
+        self.array_hook = None     # optional: called with the evaluator after its arrays became object arrays (C20: value-tagged parameters)
 
     def __enter__(self):
         outer = self
@@ -115,6 +116,8 @@ class SteadyLift:
             e._steady_array = np.asarray(e._steady_array).astype(object)
             e._maybelog_init_levels = np.asarray(e._maybelog_init_levels).astype(object)
             e._maybelog_init_changes = np.asarray(e._maybelog_init_changes).astype(object)
+            if outer.array_hook is not None:
+                outer.array_hook(e)
             b = len(outer.blocks)
             g = np.empty(len(init_guess), dtype=object)
             for i in range(len(init_guess)):
